@@ -6,6 +6,7 @@ import json
 
 PROPS = {
     'C20': {
+        'search_cmds': [['exploreflood']],
         'engines': [('explore', 150, 3000, ['-shardsize', '50'])],
         'rule': 'histories of 8-20 (8-30) ops on the REAL Explore with 1-3 worker goroutines: full discovery updates over 5 hashes x 3 jobs '
                 '(adds, removals, moves), Get, reloads dropping/restoring a job, completion of the oldest blocked probe of a hash with success '
